@@ -2,7 +2,7 @@
 (* Trace validation for C09 / C08: one run of the find binary with the       *)
 (* recorder as its command.  {"in": {mode: "single" | "multi", tree, roots,  *)
 (* cfg, pre, template | fixed, execdir, script, quit, nocmd}, "obs": {execs, *)
-(* truth, exit}}.                                                            *)
+(* truth, exit}} ("multi": truthn, and truth unless the tree is a bulk one). *)
 EXTENDS FindActions, TraceLib
 
 CfgOf(in) == [mode |-> in.cfg.mode, min |-> in.cfg.min, max |-> in.cfg.max,
@@ -18,7 +18,8 @@ Conforms(in, obs) ==
   /\ IF in.mode = "single"
      THEN LET r == SingleExecRun(in.tree, CfgOf(in), in.roots, in.pre, in.template, in.execdir, in.script, in.nocmd) IN
           obs.execs = r.execs /\ obs.truth = r.truth /\ obs.exit = r.exit
-     ELSE MultiExecOK(in.tree, CfgOf(in), in.roots, in.pre, in.fixed, in.execdir, in.script, in.quit, in.two, obs.execs, obs.exit)
+     ELSE /\ MultiExecOK(in.tree, CfgOf(in), in.roots, in.pre, in.fixed, in.execdir, in.script, in.quit, in.two, obs.execs, obs.exit)
+          /\ MultiTruthOK(in.tree, CfgOf(in), in.roots, in.pre, in.quit, obs.truthn, IF "truth" \in DOMAIN obs THEN obs.truth ELSE <<>>, "truth" \in DOMAIN obs)
 
 Describe(in) == IF in.mode = "single"
                 THEN SingleExecRun(in.tree, CfgOf(in), in.roots, in.pre, in.template, in.execdir, in.script, in.nocmd)
